@@ -1557,6 +1557,15 @@ func TestVerifC19(t *testing.T) {
 	e.stripStream()
 	e.reservedStream()
 	e.fidelity(vBudget(240, 2400))
+	e.acceptStream()
+	{
+		rt2 := NewRestTester(t, &RestTesterConfig{GuestEnabled: true, AutoImport: base.Ptr(true)})
+		_ = rt2.GetDatabase()
+		e.importFeedStream(rt2)
+		rt2.Close()
+	}
+	rec.Extra("entry_points", []string{"EPut", "EPost", "EBulk", "EPutNE", "EBulkNE", "EBlip", "EBlipDelta", "EImport", "EImportFeed"})
+	rec.Extra("read_exits", []string{"get", "get_revs", "get_show_exp", "bulk_get", "open_revs", "changes", "all_docs", "all_docs_revs", "blip_pull"})
 	rec.Extra("write_paths", []string{"put", "post", "bulk_docs", "put_new_edits_false", "blip_rev", "import"})
 	rec.Extra("read_paths", []string{"get", "get_revs", "get_rev", "open_revs", "bulk_get", "all_docs", "changes_docids", "changes_feed", "blip_pull", "old_rev_cached", "old_rev_backup", "conflicting_rev", "conflicting_rev_cached", "conflicting_bulk_get", "conflicting_open_revs",
 		"promoted_{get,get_revs,get_rev,open_revs,bulk_get,all_docs,changes_docids,get_current,changes_feed,blip_pull}"})
